@@ -35,6 +35,8 @@ class ResultPrivacyIqProtocolEntity(ResultIqProtocolEntity):
     def toProtocolTreeNode(self):
         node = super(ResultPrivacyIqProtocolEntity, self).toProtocolTreeNode()
         queryNode = ProtocolTreeNode(self.__class__.NODE_PRIVACY)
+        for name, value in self.privacy.items():
+            queryNode.addChild(ProtocolTreeNode("category", {"name": name, "value": value}))
         node.addChild(queryNode)
         return node
 
